@@ -46,7 +46,17 @@ pub fn val_of(v: &V) -> Val {
                 Val::Opaque
             }
         }
-        V::Time(ts, 0, z, off) => Val::Time((ts + *off as i64 * 60).rem_euclid(86400), z.clone(), *off),
+        V::Time(ts, 0, z, off) => {
+            // a time carries a hidden calendar day (time arithmetic across midnight moves it); a literal always means
+            // today, so only a time of today has an exact literal spelling
+            let wall = (ts + *off as i64 * 60).rem_euclid(86400);
+            let midnight = chrono::Utc::now().date_naive().and_hms_opt(0, 0, 0).map(|d| d.and_utc().timestamp()).unwrap_or(0);
+            if midnight + wall - *off as i64 * 60 == *ts {
+                Val::Time(wall, z.clone(), *off)
+            } else {
+                Val::Opaque
+            }
+        }
         V::Unit(x, g, i) if x.is_finite() => Val::Unit(*x, g.clone(), *i),
         _ => Val::Opaque,
     }
@@ -459,6 +469,8 @@ pub fn regressions() -> Vec<Program> {
         Program { stmts: vec![asg(0, Expr::One(lit("5"))), Stmt::Fail(0, 0), Stmt::Use(Expr::One(n(0))), Stmt::Fail(0, 1), Stmt::Use(Expr::One(n(0))), Stmt::Fail(0, 2), Stmt::Use(Expr::One(n(0))), Stmt::Fail(0, 3), Stmt::Use(Expr::One(n(0)))] },
         // longest match
         Program { stmts: vec![asg(0, Expr::One(lit("5"))), asg(1, Expr::One(lit("7"))), asg(2, Expr::One(lit("3"))), Stmt::Use(Expr::Bin(n(2), '+', n(1))), Stmt::Use(Expr::Bin(n(1), '+', n(0))), Stmt::Use(Expr::Bin(n(0), '*', n(2)))] },
+        // a time moved past midnight by arithmetic carries tomorrow's date: it has no literal spelling (false alarm of an earlier version of this check)
+        Program { stmts: vec![asg(7, Expr::One(lit("10:30"))), asg(0, Expr::One(lit("23:15:10"))), asg(1, Expr::Bin(n(7), '+', n(0))), Stmt::Use(Expr::Suffix(n(1), "as unix".into()))] },
         // self reference
         Program { stmts: vec![asg(3, Expr::One(lit("1"))), asg(3, Expr::Bin(n(3), '+', lit("1"))), asg(3, Expr::Bin(n(3), '*', n(3))), Stmt::Use(Expr::One(n(3)))] },
     ]
